@@ -100,6 +100,19 @@ func (e *specEnv) pkg() *types.Package {
 	return e.vc.P.Pkgs[enginePath].Pkg
 }
 
+// ghostFieldType: one named integer type per ghost field, so that each ghost field gets its own heap class
+func (P *Program) ghostFieldType(name string) types.Type {
+	if P.ghostTypes == nil {
+		P.ghostTypes = map[string]types.Type{}
+	}
+	if t, ok := P.ghostTypes[name]; ok {
+		return t
+	}
+	t := types.NewNamed(types.NewTypeName(0, nil, "ghost_"+name, nil), types.Typ[types.Int], nil)
+	P.ghostTypes[name] = t
+	return t
+}
+
 func (P *Program) namedType(name string) types.Type {
 	for _, path := range []string{enginePath, rootPath} {
 		if o := P.Pkgs[path].Pkg.Scope().Lookup(name); o != nil {
@@ -113,6 +126,9 @@ func (P *Program) namedType(name string) types.Type {
 
 func (e *specEnv) resolveType(s string) types.Type {
 	s = strings.TrimSpace(s)
+	if strings.HasPrefix(s, "ghost_") {
+		return e.vc.P.ghostFieldType(strings.TrimPrefix(s, "ghost_"))
+	}
 	if strings.HasPrefix(s, "*") {
 		t := e.resolveType(s[1:])
 		if t == nil {
@@ -361,7 +377,29 @@ func (e *specEnv) toFloat(v sval) sval {
 
 // ---------------------------------------------------------------- main translation
 
+// tr translates an expression; values read from memory get the range facts of their Go type (ground terms only)
 func (e *specEnv) tr(x Expr) sval {
+	v := e.tr0(x)
+	if v.addr != "" && v.typ != nil && e.vc.mode == modeInt && !e.typeOnly && !strings.Contains(v.t, "?") {
+		if w, signed, ok := intInfo(v.typ); ok {
+			k := "range:" + v.t
+			if e.vc.boxFacts == nil {
+				e.vc.boxFacts = map[string]bool{}
+			}
+			if !e.vc.boxFacts[k] {
+				e.vc.boxFacts[k] = true
+				if signed {
+					e.vc.assume(fmt.Sprintf("(inS%d %s)", w, v.t))
+				} else {
+					e.vc.assume(fmt.Sprintf("(inU%d %s)", w, v.t))
+				}
+			}
+		}
+	}
+	return v
+}
+
+func (e *specEnv) tr0(x Expr) sval {
 	switch n := x.(type) {
 	case *ENum:
 		return e.num(n.Text)
@@ -470,6 +508,21 @@ func (e *specEnv) ident(name string) sval {
 			return sval{t: "MEMCAP", math: true}
 		}
 		e.fail("MEMCAP only in int mode")
+	}
+	if name == "$i" && e.fr != nil && e.loopHeader != nil {
+		// the hidden index of a range loop (the index of the element processed last; -1 before the first)
+		for _, in := range e.loopHeader.Instrs {
+			if phi, ok := in.(*ssa.Phi); ok && phi.Comment == "rangeindex" {
+				t := e.fr.val(phi)
+				if e.override != nil {
+					if o, ok := e.override[phi]; ok {
+						t = o
+					}
+				}
+				return sval{t: t, typ: phi.Type()}
+			}
+		}
+		e.fail("$i: the loop is not a range loop")
 	}
 	if e.fr != nil {
 		if v, ok := e.local(name); ok {
@@ -608,6 +661,51 @@ func (e *specEnv) local(name string) (sval, bool) {
 		return sval{}, false
 	}
 	return sval{t: get(uniq), typ: uniq.Type()}, true
+}
+
+// localTyped resolves a source variable by name and type: the definition (DebugRef or named phi) whose block dominates
+// the point of use and is deepest in the dominator tree (an approximation of the reaching definition; a variable
+// assigned on one branch only gets a phi at the join, which is deeper than the definition before the branch).
+func (e *specEnv) localTyped(name string, want types.Type) sval {
+	fr := e.fr
+	get := func(v ssa.Value) string {
+		if e.override != nil {
+			if t, ok := e.override[v]; ok {
+				return t
+			}
+		}
+		return fr.val(v)
+	}
+	use := e.loopHeader
+	if use == nil {
+		use = fr.curBlock
+	}
+	var best *localRef
+	for k := range fr.localRefs[name] {
+		r := &fr.localRefs[name][k]
+		if want != nil && !types.Identical(r.v.Type(), want) {
+			continue
+		}
+		if use != nil && !(r.block == use || r.block.Dominates(use)) {
+			continue
+		}
+		// a phi of the loop header itself is the value at the loop head
+		if best == nil {
+			best = r
+			continue
+		}
+		if r.block == best.block {
+			if r.ord > best.ord {
+				best = r
+			}
+		} else if best.block.Dominates(r.block) {
+			best = r
+		}
+	}
+	if best == nil {
+		e.fail("no definition of variable %s (type %v) reaches this point", name, want)
+	}
+	return sval{t: get(best.v), typ: best.v.Type()}
 }
 
 func (e *specEnv) unary(n *EUnary) sval {
@@ -812,7 +910,7 @@ func (e *specEnv) selectExpr(n *ESelect) sval {
 							if c, ok := o.(*types.Const); ok {
 								return e.constant(c.Val(), c.Type())
 							}
-							if p.Pkg.Path() == enginePath || p.Pkg.Path() == rootPath {
+							if _, isVar := o.(*types.Var); isVar || p.Pkg.Path() == enginePath || p.Pkg.Path() == rootPath {
 								return e.object(o)
 							}
 						}
@@ -1040,6 +1138,12 @@ func (e *specEnv) quant(n *EQuant) sval {
 					ranges = append(ranges, f)
 				}
 			}
+			// bound variables range over valid values of their type (declared type invariants)
+			for _, inv := range vc.P.typeInvFor(t) {
+				ienv := vc.newSpecEnv(e.fn, e.st, e.old)
+				ienv.vars["self"] = sval{t: name, typ: t}
+				ranges = append(ranges, ienv.trBoolV(inv.Body))
+			}
 		}
 	}
 	body := env.trBoolV(n.Body)
@@ -1070,6 +1174,11 @@ func (e *specEnv) lvalue(x Expr) (string, types.Type, bool) {
 	case *ESelect, *EIndex, *EIdent:
 		v := e.tr(x)
 		if v.addr != "" {
+			return v.addr, v.typ, true
+		}
+	case *ECall:
+		if id, ok := n.Fun.(*EIdent); ok && id.Name == "gf" {
+			v := e.tr(x)
 			return v.addr, v.typ, true
 		}
 	}
@@ -1220,6 +1329,17 @@ func (e *specEnv) call(n *ECall) sval {
 			return sval{t: "(f2i64 " + fl(0) + ")", math: true}
 		}
 		return sval{t: "((_ fp.to_sbv 64) RTZ " + fl(0) + ")", math: true, w: 64}
+	case "distinct":
+		var ts []string
+		for i := range n.Args {
+			v := arg(i)
+			if v.math {
+				ts = append(ts, v.t)
+			} else {
+				ts = append(ts, v.t)
+			}
+		}
+		return sval{t: "(distinct " + strings.Join(ts, " ") + ")", typ: boolT}
 	case "same":
 		a, b := arg(0), arg(1)
 		return sval{t: "(= " + a.t + " " + b.t + ")", typ: boolT}
@@ -1235,6 +1355,15 @@ func (e *specEnv) call(n *ECall) sval {
 		}
 		w := 66
 		return sval{t: fmt.Sprintf("(bvshl (_ bv1 %d) %s)", w, e.ext(sval{t: s.t, w: s.w}, maxi(w, s.w))), math: true, w: w}
+	case "wrap64": // the value a Go int64 computation of x yields (two's-complement wrap-around)
+		x := e.toMath(arg(0))
+		if vc.mode == modeInt {
+			return sval{t: "(wrapS64 " + x.t + ")", math: true}
+		}
+		if x.w <= 64 {
+			return sval{t: e.ext(x, 64), math: true, w: 64}
+		}
+		return sval{t: fmt.Sprintf("((_ extract 63 0) %s)", x.t), math: true, w: 64}
 	case "shl": // shl(x, s) = x * 2^s for a shift count 0 <= s <= 63 (mathematical, never overflows)
 		x, sft := e.toMath(arg(0)), e.toMath(arg(1))
 		if sft.lit != nil {
@@ -1254,6 +1383,14 @@ func (e *specEnv) call(n *ECall) sval {
 			e.fail("addr of a non-lvalue")
 		}
 		return sval{t: a, typ: types.Typ[types.UnsafePointer]}
+	case "gf": // gf(name, ref): ghost field `name` of the object ref (an integer cell that exists only in the proof)
+		id, ok := n.Args[0].(*EIdent)
+		if !ok || len(n.Args) != 2 {
+			e.fail("gf(name, ref)")
+		}
+		ref := arg(1)
+		gt := vc.P.ghostFieldType(id.Name)
+		return sval{t: vc.load(e.st, ref.t, gt), typ: gt, addr: ref.t}
 	case "backing": // the backing array of a slice (as a reference)
 		v := arg(0)
 		if _, ok := v.typ.Underlying().(*types.Slice); !ok {
@@ -1306,6 +1443,16 @@ func (e *specEnv) call(n *ECall) sval {
 			return sval{t: t, math: true}
 		}
 		return sval{t: "((_ int2bv 64) " + t + ")", math: true, w: 64}
+	case "local": // local(name, Type): the source variable of that name and type (disambiguates shadowed names)
+		id, ok := n.Args[0].(*EIdent)
+		if !ok || len(n.Args) != 2 || e.fr == nil {
+			e.fail("local(name, Type) is only available in contracts of the function itself")
+		}
+		want := e.resolveType(n.Args[1].String())
+		if want == nil {
+			e.fail("local: unknown type %s", n.Args[1])
+		}
+		return e.localTyped(id.Name, want)
 	case "called": // called(x): the call whose results are bound to x (bind clause) was executed on this path
 		id, ok := n.Args[0].(*EIdent)
 		if !ok {
